@@ -6,6 +6,7 @@ from .. import core
 PROP = "C17"
 MODULE = "GmqttVerif.Properties.C17"
 THEOREMS = [
+    "GmqttVerif.FedSource.routing_functions_as_transcribed",
     "GmqttVerif.Fed.route_nonretained_exact",
     "GmqttVerif.Fed.route_retained_all",
     "GmqttVerif.Fed.receiver_no_reforward",
@@ -18,6 +19,8 @@ THEOREMS = [
     "GmqttVerif.Fed.remote_retained_clear_as_is_refuted",
     "GmqttVerif.Fed.remote_retained_set",
 ]
+EXTRA_MODULES = ["GmqttVerif.Properties.FedSource"]
+NEEDS_FACTS = ["FedFuncs"]
 COMPS = ["fedroute", "fedsession"]
 
 LEVELS = ["a", "b", "+", "#"]
@@ -267,6 +270,24 @@ def streams(tier):
                      lambda ops, out: pred_route(ops, out, True), nontriv_route, keep_prefix=1), 500 * k),
         (core.Stream("fedrecv-retained", "fedsession", gen_recv, pred_recv, lambda ops, out: any(" 1 0 " in op for op in ops), keep_prefix=5), 300 * k),
     ]
+
+def extra(r):
+    """readable form of the FedSource theorems: which transcribed function of plugin/federation changed"""
+    import os, re as _re
+    try:
+        gen = open(os.path.join(core.LEAN, "GmqttVerif", "Generated", "FedFuncs.lean")).read()
+        exp = open(os.path.join(core.LEAN, "GmqttVerif", "Properties", "FedSource.lean")).read()
+    except OSError:
+        return
+    names = _re.findall(r'"([^"]+)"', _re.search(r"def fedFuncNames : List String :=\s*\n\s*\[(.*?)\]\n", gen, _re.S).group(1))
+    got = _re.search(r"def fedFuncsH : List Nat :=\s*\n\s*\[(.*?)\]", gen, _re.S).group(1).split(", ")
+    want = dict((n, h) for h, n in _re.findall(r"(\d+)\s+/- ([\w.]+) -/", exp))
+    changed = [n for n, h in zip(names, got) if want.get(n) != h]
+    if changed:
+        body = ("# the body of these functions of plugin/federation is no longer the text the federation models transcribe\n"
+                "# (Properties/FedSource.lean); the streams run them in lock-step only, so orderings inside them that matter under\n"
+                "# concurrency are not observed: re-read the model against the new text\n" + "".join(f"# changed: {n}\n" for n in changed))
+        r.violation("fed-source", body, False, "transcribed federation functions changed: " + ", ".join(changed))
 
 def run(r):
     return core.standard_run(r, __import__(__name__, fromlist=["x"]))
